@@ -41,7 +41,7 @@ Section Upd.
               | tg =>
                   let stk := if tag_eqb tg TMANIFEST then us_stack s0 ++ [(fpath, rel)] else us_stack s0 in
                   if tag_eqb tg TMANIFEST && mem_str rel (l_updated l0) then Ok (mk_us l0 ed' stk (us_ids s0), news, lastft) else
-                  '(changed, sz, ck) <- upd_entry w (pjoin dirpath f) fe (Some hashes) (l_dev l0) (if mem_str mpath nm then None else lm) ;;
+                  '(changed, sz, ck) <- upd_entry w (pjoin dirpath f) fe (Some hashes) (l_dev l0) (if mem_str mpath nm || mem_str mpath (l_updated l0) then None else lm) ;;
                   let l1 := set_entry_at l0 mpath id (with_size_cks fe sz ck) in
                   let l2 := if changed then add_updated l1 mpath else l1 in
                   Ok (mk_us l2 ed' stk (us_ids s0), news, lastft)
@@ -70,7 +70,7 @@ Section Upd.
       + destruct (entry_at (us_l s) mpath id) as [fe|]; [|discriminate].
         destruct (e_tag fe); cbn [tag_eqb andb] in E; try (inversion E; reflexivity);
           try (destruct (mem_str rel (l_updated (us_l s))); [inversion E; reflexivity|]);
-          (destruct (upd_entry w (pjoin dirpath f) fe (Some hashes) (l_dev (us_l s)) (if mem_str mpath nm then None else lm)) as [[[ch sz] ck]|]; cbn [bind] in E;
+          (destruct (upd_entry w (pjoin dirpath f) fe (Some hashes) (l_dev (us_l s)) (if mem_str mpath nm || mem_str mpath (l_updated (us_l s)) then None else lm)) as [[[ch sz] ck]|]; cbn [bind] in E;
            [inversion E; reflexivity|discriminate]).
       + destruct (ustr_eqb (pjoin rel f) (l_top (us_l s))); [inversion E; reflexivity|].
         match type of E with context [mk_new_entry ?a ?b] => destruct (mk_new_entry a b) as [fe|] end; cbn [bind] in E; [|discriminate].
